@@ -133,6 +133,7 @@ def execOp (spec : Bool) (mode prog stdin max : String) : String :=
     else
       match mode with
       | "one" => traceOne (N := HyN.NumI) p idx ⟨(St.init, w), 0⟩ fuel #[]
+      | "end" => #[(traceOne (N := HyN.NumI) p idx ⟨(St.init, w), 0⟩ fuel #[]).back!]   -- only how the run ends
       | "inc" => traceInc (N := HyN.NumI) p idx 0 (St.init, w) 100000 #[]
       | _ => #["BADMODE"]
   "|".intercalate recs.toList
